@@ -193,6 +193,13 @@ impl<TStdlib: Stdlib, TStdIn: Input, TStdOut: Printer, TLpt1: Printer> Interpret
         while i < instructions.len() && !ctx.halt {
             let instruction = &instructions[i].element;
             let pos = instructions[i].pos();
+            #[cfg(feature = "verif")]
+            if self.verif_tick(i, pos, &ctx) {
+                return Err(RuntimeError::Other(
+                    crate::interpreter::verif::BUDGET_MESSAGE.to_owned(),
+                ))
+                .with_err_at(&pos);
+            }
             match self.interpret_one(i, instruction, pos, &mut ctx) {
                 Ok(_) => match ctx.opt_next_index.take() {
                     Some(next_index) => {
@@ -629,6 +636,50 @@ impl<TStdlib: Stdlib, TStdIn: Input, TStdOut: Printer, TLpt1: Printer>
             Some(a) => Ok(a),
             None => Err(RuntimeError::ResumeWithoutError),
         }
+    }
+}
+
+#[cfg(feature = "verif")]
+impl<TStdlib: Stdlib, TStdIn: Input, TStdOut: Printer, TLpt1: Printer>
+    Interpreter<TStdlib, TStdIn, TStdOut, TLpt1>
+{
+    fn verif_tick(&self, pc: usize, pos: Position, ctx: &InterpretOneContext) -> bool {
+        use crate::interpreter::verif;
+        let snapshot = if verif::wants_snapshot() {
+            let (ctx_states, ctx_blocks, ctx_static) = self.context.verif_shape();
+            let (handler_kind, handler_address) = match ctx.error_handler {
+                ErrorHandler::None => (0, 0),
+                ErrorHandler::Next => (1, 0),
+                ErrorHandler::Address(a) => (2, a),
+            };
+            Some(verif::Snapshot {
+                pc,
+                row: pos.row(),
+                col: pos.col(),
+                value_stack: self.value_stack.len(),
+                register_stack: self.register_stack.len(),
+                var_path_stack: self.var_path_stack.len(),
+                by_ref_stack: self.by_ref_stack.len(),
+                return_address_stack: self.return_address_stack.clone(),
+                go_sub_address_stack: self.go_sub_address_stack.clone(),
+                stacktrace: self.stacktrace.iter().map(|p| (p.row(), p.col())).collect(),
+                ctx_states,
+                ctx_blocks,
+                ctx_static,
+                last_error_code: self.last_error_code,
+                last_error_address: self.last_error_address,
+                handler_kind,
+                handler_address,
+                vars: if verif::wants_vars() {
+                    Some(self.context.verif_vars())
+                } else {
+                    None
+                },
+            })
+        } else {
+            None
+        };
+        verif::tick(snapshot)
     }
 }
 
